@@ -185,7 +185,8 @@ Definition huge_seg (m : mem) (base bs page_alignment : N) : option (mem * N) :=
     if base_ok m base (seg_slices (fst (cs_st cs1))) then
       match init_cpage cs1 idx psize with
       | None => None
-      | Some cp => Some (set_pages cs1 [cp] :: m, idx)
+      | Some cp => if reserved (cp_page cp) =? 1              (* a huge page holds one block *)
+                   then Some (set_pages cs1 [cp] :: m, idx) else None
       end
     else None
   end.
@@ -355,7 +356,8 @@ Definition seg_ok_b (cs : cseg) : bool :=
   span_inv_b (cs_st cs) &&
   nodupb idxs && forallb (fun i => memN i firsts) idxs && forallb (fun i => memN i idxs) firsts &&
   forallb (page_ok_b cs) (cs_pages cs) &&
-  (kind_is_huge sg || forallb (fun sp => snd sp <=? MI_MAX_SLICE_OFFSET_COUNT + 1) (used_spans sg)).
+  (if kind_is_huge sg then forallb (fun cp => reserved (cp_page cp) <=? 1) (cs_pages cs)
+   else forallb (fun sp => snd sp <=? MI_MAX_SLICE_OFFSET_COUNT + 1) (used_spans sg)).
 
 Fixpoint apart_b (m : mem) : bool :=
   match m with
